@@ -636,6 +636,15 @@ func (w *World) run(op *Op) (interface{}, error) {
 		if op.Mode == "unsafe" {
 			opts = append(opts, tensor.UseUnsafe())
 		}
+		if op.Mode == "mixed" {
+			// a matrix obtained as a copy (no UseUnsafe), then a tensor laid over that matrix: shares with the matrix,
+			// not with the source tensor
+			m, err := tensor.ToMat64(a)
+			if err != nil {
+				return nil, err
+			}
+			return tensor.FromMat64(m, tensor.UseUnsafe()), nil
+		}
 		m, err := tensor.ToMat64(a, opts...)
 		if err != nil {
 			return nil, err
@@ -673,7 +682,15 @@ func (w *World) run(op *Op) (interface{}, error) {
 		if err != nil {
 			return nil, err
 		}
-		return fmt.Sprintf("%v", m.RawMatrix().Data), nil
+		res := fmt.Sprintf("%v", m.RawMatrix().Data)
+		if op.Mode != "unsafe" {
+			// without UseUnsafe the matrix is the caller's own copy: the caller writes into it
+			d := m.RawMatrix().Data
+			for i := range d {
+				d[i] = -12345.5
+			}
+		}
+		return res, nil
 
 	// ------------------------------------------------------------------ lifecycle
 	case "ReturnTensor":
